@@ -2,7 +2,7 @@
 from world import amounts, enc_f64, dec_f64, f64_next, enc_dec, dec_dec
 
 ID = "C09"
-LEAN_MODULES = ["QtyModel.Props.C09", "QtyModel.Props.C09Keys", "QtyModel.Props.TieFit", "QtyModel.Props.TieSymbol", "QtyModel.Props.TieAnalyze"]
+LEAN_MODULES = ["QtyModel.Props.C09", "QtyModel.Props.C09Keys", "QtyModel.Props.TieFit", "QtyModel.Props.TieSymbol", "QtyModel.Props.TieAnalyze", "QtyModel.Props.TieCodegen"]
 HARNESS_GROUPS = ()
 RULE = ("registry dump (iteration order, names, symbols, prefixes, scales, REF_UNIT, constants) of every type; lookup by "
         "every declared symbol, case-flipped / edited near misses and random strings; lookup by every declared scale, "
